@@ -295,6 +295,12 @@ Fixpoint chunked_loop (fuel : nat) (lim : limits) (p : pstate) (c : cstate) (tl 
     end
   end.
 
+(* the length with which a buffered partial line is checked against its limit.  Strict parsing
+   (SEP = CRLF): when the generated flag is set, one trailing CR - possibly the first half of the
+   line terminator - does not count, exactly as it does not count for a complete line. *)
+Definition tail_len (discount : bool) (t : bytes) : N :=
+  if discount && (last t 0 =? 13) then lenN t - 1 else lenN t.
+
 Definition feed_payload (lim : limits) (p : pstate) (data : bytes) (evs : acc) : pres :=
   match pk p with
   | PLength rem =>
@@ -309,8 +315,8 @@ Definition feed_payload (lim : limits) (p : pstate) (data : bytes) (evs : acc) :
       match ctail p, c with
       | [], _ => false
       | _, CData _ => false
-      | t, CTrailers => max_field lim <? lenN t
-      | t, _ => max_line lim <? lenN t
+      | t, CTrailers => max_field lim <? tail_len chunk_tail_check_discounts_cr t
+      | t, _ => max_line lim <? tail_len chunk_tail_check_discounts_cr t
       end in
     if too_long then PRFail ELineTooLong evs
     else let chunk := ctail p ++ data in
@@ -439,7 +445,7 @@ Fixpoint feed_loop (fuel : nat) (lim : limits) (o : oracle) (s : pst) (buf : byt
           | None =>
             let limit := match lines s with [] => max_line lim | _ => max_field lim end in
             if has_byte 10 buf then (s, evs, RErr EBadMessage)
-            else if limit <? lenN buf then (s, evs, RErr ELineTooLong)
+            else if limit <? tail_len tail_check_discounts_cr buf then (s, evs, RErr ELineTooLong)
             else (mkS (lines s) buf None (upgraded s) (pending_upgrade s) (should_close s) (in_flight s),
                   evs, ROk [])
           end
